@@ -709,7 +709,7 @@ func PeekNode(n *Node) (term int64, status proto.ServingStatus, ok bool) {
 		return t, proto.ServingStatus(st), true
 	}
 	if fc != nil {
-		t, st, _, _ := server.VerifPeekFollower(fc)
+		t, st, _ := server.VerifPeekFollower(fc)
 		return t, proto.ServingStatus(st), true
 	}
 	return 0, 0, false
